@@ -4,7 +4,9 @@
 patch="$1"; shift
 cd /repo || exit 2
 git apply "$patch" || { echo "patch does not apply"; exit 2; }
-trap 'git -C /repo checkout -- . ' EXIT
+# evidence written while a seeded change is applied must never be committed: keep the clean-tree files
+rm -rf /tmp/evidence_keep_$$ && cp -r /verif/evidence /tmp/evidence_keep_$$
+trap 'git -C /repo checkout -- . ; rm -rf /verif/evidence; mv /tmp/evidence_keep_$$ /verif/evidence' EXIT
 cd /verif
 for p in "$@"; do
   python3 alv.py check "$p" --tier quick 2>/dev/null | tail -3
